@@ -30,10 +30,20 @@ def insertBy {α} (lt : α → α → Bool) (x : α) : List α → List α
   | y :: ys => if lt x y then x :: y :: ys else y :: insertBy lt x ys
 def sortBy {α} (lt : α → α → Bool) (l : List α) : List α := l.foldl (fun acc x => insertBy lt x acc) []
 
+/-- the kinds of the file operations of the modelled state save (`saveOps`), in order; compared by the check with
+    the order read from the source of `saveState` (create + write = createPartial … complete = close, remove) -/
+def saveOrder : String :=
+  let new : StateFile := { name := 2, saved := 2, parsable := true, tags := [] }
+  ",".intercalate ((saveOps new (some 1)).map fun
+    | .createPartial _ => "createPartial"
+    | .complete _ => "complete"
+    | .remove _ => "remove")
+
 def stepLine (_ : Unit) (line : String) : Unit × String :=
   match Json.parse line with
   | .error e => ((), "{\"error\":" ++ (Json.str e).compress ++ "}")
   | .ok j =>
+    if (j.getObjVal? "saveorder").isOk then ((), "{\"saveorder\":\"" ++ saveOrder ++ "\"}") else
     -- files arrive in name order; the model names them by their rank
     let idxJ := sortBy (fun a b => jstr a "name" < jstr b "name") (jarr j "idx")
     let stJ := sortBy (fun a b => jstr a "name" < jstr b "name") (jarr j "states")
